@@ -295,8 +295,13 @@ def rules(ctx):
              "minimisers collected under their value" if okc else "minimisers are not collected under the key of their value")
     fin = [n for n in strip_docstring(sb.node.body) if isinstance(n, ast.If) and src(n.test) == allp]
     okfin = False
+    def at_best(e):
+        return isinstance(e, ast.Subscript) and src(e.slice) == INC.value
     for n in fin:
         for s_ in n.body:
+            if isinstance(s_, ast.Return) and isinstance(s_.value, ast.Tuple) and len(s_.value.elts) == 2 \
+                    and src(s_.value.elts[0]) == INC.value and at_best(s_.value.elts[1]):
+                okfin = True
             if not isinstance(s_, ast.Assign):
                 continue
             if INC.form == 'pair' and isinstance(s_.value, ast.Tuple) and len(s_.value.elts) == 2 and is_name(s_.targets[0], INC.name):
@@ -311,10 +316,12 @@ def rules(ctx):
              "the all-solutions result is not read at the final best value")
     # what is returned after the enumeration is the incumbent
     after = [n for n in g.stmts() if isinstance(n, ast.Return) and g.reaches(loop, n)]
+    def under_all(r):
+        return any(('truthy', allp) in compare_atoms(t, pol) for t, pol, o in g.edge_dominators(r))
     okret = bool(after) and all(
         (INC.form == 'pair' and is_name(r.value, INC.name)) or
         (isinstance(r.value, ast.Tuple) and len(r.value.elts) == 2 and src(r.value.elts[0]) == INC.value
-         and src(r.value.elts[1]) == INC.sol) for r in after)
+         and (src(r.value.elts[1]) == INC.sol or (at_best(r.value.elts[1]) and under_all(r)))) for r in after)
     ctx.inst('R09.4', sb, after[0] if after else 'return', okret,
              "the incumbent (value, assignment) is returned" if okret else
              "what is returned after the enumeration is not the incumbent pair")
